@@ -27,6 +27,8 @@ struct LT {
     std::thread th;
     long hooks = 0;
     bool tso = false;                 // this logical thread buffers its non-seq_cst stores
+    bool daemon = false;              // created by the code under test (an RML worker): the run does not wait for it to finish
+    void* (*fn)(void*) = nullptr; void* arg = nullptr;
     std::vector<StoreEnt> buf;        // FIFO store buffer (TSO emulation)
 };
 
@@ -46,13 +48,15 @@ void yield_point();
 int  self_id();               // id of the calling logical thread, -1 if not logical
 int  num_blocked();           // number of logical threads blocked in an emulated futex wait
 bool is_blocked(int t);
+bool daemons_asleep();         // at least one library-created thread exists and all of them are blocked in an emulated futex wait
+bool is_done(int t);             // the logical thread finished its body
 
 struct Sched {
     std::vector<LT*> lts;
     long steps = 0;
     long last_change = 0;             // step index of the last step that changed memory / thread state
     long stall_limit = 20000;         // consecutive no-change steps => RC_STALL
-    long drains = 0, buffered = 0, futex_waits = 0, futex_wakes = 0;
+    long drains = 0, buffered = 0, futex_waits = 0, futex_wakes = 0, daemons_created = 0;
     std::vector<int> sched_log;       // thread id of every granted step (>=0) / -(t+1) for a drain of t's buffer
     bool log_schedule = false;
 
@@ -65,7 +69,7 @@ struct Sched {
     Pending pending(int t) const { return lts[t]->pend; }
     bool done(int t) const { return state(t) == ST_DONE; }
     bool runnable(int t) const { return state(t) == ST_HOOK; }
-    bool all_done() const;
+    bool all_done() const;            // every non-daemon thread finished
     int  n() const { return (int)lts.size(); }
     // random schedule: at each step continue the current thread unless rng()%switch_den==0 (switch_den=1: uniform)
     // switch_den < 0: PCT-style priority schedule with -switch_den priority-change points (run_pct)
@@ -74,6 +78,7 @@ struct Sched {
     // follow a list of thread ids as far as possible (skipping non-runnable), then round robin
     int  run_schedule(const std::vector<int>& sched, long maxsteps);
     int  finish(long maxsteps = 5000000);   // round robin to completion
+    void settle_daemons(long maxsteps); // run library-created threads until they sleep (called by join_all)
     void join_all();                  // joins finished threads, detaches the rest (stuck runs)
 };
 
